@@ -58,7 +58,7 @@ pvars  == <<present, ready, busy, waiters, cstat>>
 svars  == <<lock, cond>>
 tvars  == <<pc, tk, tc, ck, tq, tforce, cflag, cwc, why, join>>
 bvars  == <<uses, ncancel, nkill>>
-ovars  == <<holders, inAcq, inRel, rpend, quiet>>
+ovars  == <<holders, inAcq, inRel, rpend, owed, quiet>>
 vars   == <<pvars, svars, tvars, rtasks, bvars, ovars>>
 
 -----------------------------------------------------------------------------
@@ -285,6 +285,7 @@ Holders == [x \in Conns |-> {c \in Clients : pc[c] = "use" /\ tc[c] = x}]
 InAcq   == [c \in Clients |-> IF pc[c] \in AcqPcs THEN tk[c] ELSE 0]
 InRel   == [c \in Clients |-> pc[c] \in RelPcs]
 RPend   == {r \in RTs : pc[r] \notin Terminal \cup NotYet}
+Owed    == {tc[t] : t \in {u \in Threads : (IsClient(u) /\ pc[u] \in RelPcs) \/ (~IsClient(u) /\ pc[u] \notin Terminal \cup NotYet)}}
 
 \* a task that the loop can run now
 Wakeable(t) ==
@@ -294,10 +295,10 @@ Wakeable(t) ==
   \/ pc[t] = "a_join" /\ (cflag[t] \/ pc[join[t]] \in Terminal)
 Quiet == \A t \in Threads : ~Wakeable(t)
 
-Init == InitM /\ holders = Holders /\ inAcq = InAcq /\ inRel = InRel /\ rpend = RPend /\ quiet = Quiet
+Init == InitM /\ holders = Holders /\ inAcq = InAcq /\ inRel = InRel /\ rpend = RPend /\ owed = Owed /\ quiet = Quiet
 
 \* every action re-derives the observation variables
-Obs == holders' = Holders' /\ inAcq' = InAcq' /\ inRel' = InRel' /\ rpend' = RPend' /\ quiet' = Quiet'
+Obs == holders' = Holders' /\ inAcq' = InAcq' /\ inRel' = InRel' /\ rpend' = RPend' /\ owed' = Owed' /\ quiet' = Quiet'
 
 -----------------------------------------------------------------------------
 (* The event loop runs one block of one task                                *)
